@@ -195,8 +195,9 @@ func AffineOf(info *types.Info, e ast.Expr) (Affine, bool) {
 			return AffVar(v), true
 		}
 	case *ast.SelectorExpr:
-		// field chain rooted at a variable: cw.maxMessageLength
-		if !affIsInt(info.TypeOf(x)) {
+		// field chain rooted at a variable: cw.maxMessageLength (the type is taken
+		// from the field, so that nodes rebuilt by a rule are accepted too)
+		if fo, ok := ObjOf(info, x).(*types.Var); !ok || !fo.IsField() || !affIsInt(fo.Type()) {
 			return Affine{}, false
 		}
 		path := ""
@@ -323,7 +324,8 @@ func IntCmp(info *types.Info, e ast.Expr) (d Affine, op token.Token, ok bool) {
 	if !isCmp {
 		return Affine{}, 0, false
 	}
-	if !affIsInt(info.TypeOf(a)) || !affIsInt(info.TypeOf(b)) {
+	// (operands rebuilt by a rule have no recorded type: AffineOf decides then)
+	if ta, tb := info.TypeOf(a), info.TypeOf(b); (ta != nil && !affIsInt(ta)) || (tb != nil && !affIsInt(tb)) {
 		return Affine{}, 0, false
 	}
 	x, ok1 := AffineOf(info, a)
